@@ -60,6 +60,13 @@ def resolve(decision, container, extra_actions=()):
         if len(keys) != 1:
             raise RefApplyError("%s needs exactly one target key, got %r" % (a, sorted(keys, key=str)))
         key, = keys
+        if isinstance(container, dict) and key not in container:
+            # both sides added the key: clearing it means adding its cleared
+            # form, removing it means not adding it
+            if a == "clear":
+                added = (list(ld) or list(rd))[0]["value"]
+                return [dict(op="add", key=key, value=_cleared(added))]
+            return []
         if a == "clear":
             return [dict(op="replace", key=key, value=_cleared(container[key]))]
         if isinstance(container, (list, str)):
